@@ -20,6 +20,7 @@ CONSTANTS
   BootAll = TRUE
   MaxRank = 12
   AllRanks = FALSE
+  AllowMulti = TRUE
   AllowBadMerge = TRUE
   AllowBad = FALSE
   PubWeight = 3
